@@ -243,6 +243,43 @@ OUTSIDE_FREE = {("Givaro", "Brillhart"): "IntSqrtModDom", ("Givaro", "Lenstra"):
                 ("Givaro", "SplitFactor"): "Poly1FactorDom"}
 
 
+# ------------------------------------------------------------------ SUB-OBJECT aliasing (c15_scan.SUBDECLS): the destination `A&` and a
+# const operand `const B&` where B is the type of a member / half / coefficient of A (shape letter S) or the converse
+SUBFORMS = {}
+_P = "Givaro::Poly1Dom"
+for nm, sh, op in (("add", "DCS", "add.s@"), ("add", "DSC", "add.sl@"), ("addin", "DS", "addin.s@"), ("sub", "DCS", "sub.s@"), ("sub", "DSC", "sub.sl@"),
+                   ("subin", "DS", "subin.s@"), ("mul", "DCS", "mul.s@"), ("mul", "DSC", "mul.sl@"), ("mulin", "DS", "mulin.s@"), ("div", "DCS", "div.s@"),
+                   ("div", "DSC", "div.sl@"), ("divin", "DS", "divin.s@"), ("mod", "DCS", "mod.s@"), ("mod", "DSC", "mod.sl@"), ("modin", "DS", "modin.s@"),
+                   ("axpy", "DSCC", "axpy.s@"), ("axmy", "DSCC", "axmy.s@"), ("maxpy", "DSCC", "maxpy.s@"), ("axpyin", "DSC", "axpyin.s@"),
+                   ("axmyin", "DSC", "axmyin.s@"), ("maxpyin", "DSC", "maxpyin.s@"), ("assign", "DS", "assign.s@"), ("assign", "DxS", "assign.ds@")):
+    SUBFORMS[(_P, nm, "sub:%s:Rep>Type_t" % sh)] = "POLY:" + op
+_why = "!the destination is a scalar and the polynomial operand is const: the scalar can only live inside the operand through a second, non-const access path"
+for nm, sh in (("assign", "DS"), ("eval", "DSC"), ("getEntry", "DxS"), ("leadcoef", "DS"), ("pdiv", "xDSS"), ("pdivmod", "xxDSS"), ("pmod", "xDSS")):
+    SUBFORMS[(_P, nm, "sub:%s:Type_t<Rep" % sh)] = _why
+SUBFORMS[(_P, "setEntry", "sub:DSx:Rep>Type_t")] = "!a single coefficient assignment"
+for sh in ("DS", "DxS"):
+    SUBFORMS[("Givaro::TruncDom", "assign", "sub:%s:Rep>Type_t" % sh)] = "!truncated power series (givtruncdomain.h): not one of the named interfaces"
+for mg in ("MG_ACTIVE", "MG_INACTIVE"):
+    SUBFORMS[("RecInt", "exp", "sub:DCS:rmint<K,%s>>ruint<K>" % mg)] = "RM:exp.val"
+    SUBFORMS[("RecInt", "reduction", "sub:DS:rmint<K,%s>>ruint<K>" % mg)] = "RM:reduction.val"
+SUBFORMS[("RecInt", "lmul", "sub:DSS:ruint<K+1>>ruint<K>")] = "RU:lmul.sub"
+SUBFORMS[("RecInt", "lmul_naive", "sub:DSS:ruint<K+1>>ruint<K>")] = "~RU:lmul.sub the body of lmul below the Karatsuba threshold"
+SUBFORMS[("RecInt", "lmul_kara", "sub:DSS:ruint<K+1>>ruint<K>")] = "~RU:lmul.sub documented 'NOT safe' for outputs that are inputs (rumul.h); above the threshold only"
+SUBFORMS[("RecInt", "lmul", "sub:DSx:ruint<K+1>>ruint<K>")] = "~RU:lmul.sub word form of lmul, the same limb loop"
+SUBFORMS[("RecInt", "lsquare", "sub:DS:ruint<K+1>>ruint<K>")] = "RU:lsquare.sub"
+SUBFORMS[("RecInt", "laddmul", "sub:DSSS:ruint<K+1>>ruint<K>")] = "RU:laddmul.sub"
+SUBFORMS[("RecInt", "laddmul", "sub:xDSSS:ruint<K+1>>ruint<K>")] = "~RU:laddmul.sub the same body returning the carry"
+SUBFORMS[("RecInt", "laddmul", "sub:xDSSC:ruint<K+1>>ruint<K>")] = "~RU:laddmul.sub,RM:mul wide addend; the callers pass locals"
+SUBFORMS[("RecInt", "laddmul", "sub:xDDCCS:ruint<K><ruint<K+1>")] = "~RM:reduction.val,reduction,mul the Montgomery reduction passes the destination as the wide addend's source (documented safe in rmgreduc.h)"
+SUBFORMS[("RecInt", "left_shift", "sub:DSx:ruint<K+1>>ruint<K>")] = ("!declared 'Internal use' in rushift.h (b = a << d into a double-width b): its callers (rudiv.h div, "
+    "normalisation) pass a local destination; with a being b.High the result is wrong, outside its documented use")
+SUBFORMS[("RecInt", "mod_n", "sub:DSC:ruint<K><ruint<K+1>")] = "RU:mod_n.sub"
+
+
+def lookup_sub(key):
+    return SUBFORMS.get(key)
+
+
 def lookup(key):
     """target string for a declaration key, or None"""
     if key in FORMS:
